@@ -644,7 +644,7 @@ func main() {
 			if r.Thorough {
 				opt = "-O2"
 			}
-			wb, err := buildWuffsDriver(r.Repo, opt)
+			wb, err := buildWuffsDriver(r.Repo, opt, driverCacheRoot(r.OutDir))
 			buildCh <- buildRes{wb, err}
 		}()
 	} else {
@@ -717,6 +717,9 @@ func main() {
 	} else if br.wb != nil {
 		wb := br.wb
 		defer wb.cleanup()
+		if wb.cached {
+			r.Note("Wuffs decoder driver reused from the cache (same compiler sources, std/, driver source, gcc)")
+		}
 		if wb.note != "" {
 			r.Note(wb.note)
 			r.Count("wuffs-compiler-fallback(last commit)")
@@ -775,9 +778,30 @@ func main() {
 		r.Note(s)
 	}
 	r.Finish("payload round trips (empty, 1 byte, all-0x00/all-0xFF up to 200 KiB, 65535/65536/65537 and multi-chunk, " +
-		"incompressible, compressible at the raw-vs-LZMA decision margin, searched carry chains that keep low in [0xFF000000,2^32)), " +
-		"decode of mutated encodings and arbitrary bytes, function-level shiftLow/encodeBit/decodeBit/uvarint traces; " +
-		"every case counts as non-trivial (each is a distinct input)")
+		"incompressible, compressible at the raw-vs-LZMA decision margin and at the 16-bit packed-size limit, searched carry chains " +
+		"that keep low in [0xFF000000,2^32), every length 0..N of constant / alternating payloads and of text prefixes with the " +
+		"real encoder state watched for streams that end inside a pending 0xFF run, searched last bytes (low = ..FF, carry / emit / " +
+		"extend at the flush), payload and block sizes at the uvarint thresholds of the XZ index, non-empty dst), " +
+		"decode of mutated encodings and arbitrary bytes, function-level shiftLow/encodeBit/decodeBit/uvarint traces, " +
+		"real Wuffs std/lzma + std/xz against their models on encodings, extended and truncated encodings; " +
+		"every case counts as non-trivial (each is a distinct input; the light sweep payloads get the Go round trip only)")
+}
+
+// driverCacheRoot is <work>/cache-c17 for an output directory below a directory called "work", else "" (no cache).
+func driverCacheRoot(outDir string) string {
+	if os.Getenv("C17_NO_DRIVER_CACHE") != "" {
+		return ""
+	}
+	abs, err := filepath.Abs(outDir)
+	if err != nil {
+		return ""
+	}
+	for d := abs; d != "/" && d != "."; d = filepath.Dir(d) {
+		if filepath.Base(d) == "work" {
+			return filepath.Join(d, "cache-c17")
+		}
+	}
+	return ""
 }
 
 func firstLines(s string, n int) string {
